@@ -62,7 +62,7 @@ typedef int (*explore_fn)(const struct c10_cfg *, struct c10_result *);
 typedef int (*replay_fn)(const char *, FILE *, char (*)[128], int);
 
 struct section {
-	char name[96];
+	char name[160];
 	const char *variant;
 	struct c10_cfg cfg;
 	struct c10_result res;
@@ -90,12 +90,19 @@ static void shapes_w16(struct c10_cfg *cfg, int subset)
 		}
 }
 
-static void shapes_big(struct c10_cfg *cfg, int B)
+static void shapes_big(struct c10_cfg *cfg, int B, int subset)
 {
-	/* totals B-1, B, B+1; a small frame s=10 and B-s-1, B-s, B-s+1 (two-frame sums at the boundary); two halves */
+	if (subset) {
+		const struct c10_shape sub[] = {{4, 6}, {4, B / 2 - 4}, {4, B - 10 - 4}, {1, B - 1}};
+		cfg->nshapes = 0;
+		for (unsigned i = 0; i < sizeof(sub) / sizeof(sub[0]); i++)
+			cfg->shapes[cfg->nshapes++] = sub[i];
+		return;
+	}
+	/* totals B-1, B, B+1; a small frame s=10 and B-s-1, B-s, B-s+1 (two-frame sums at the boundary); two halves; payload B and B+1 */
 	const struct c10_shape sh[] = {
 		{4, 6},          {4, B / 2 - 4},  {4, B - 10 - 5}, {4, B - 10 - 4}, {4, B - 10 - 3},
-		{4, B - 1 - 4},  {4, B - 4},      {4, B + 1 - 4},  {1, B - 1},
+		{4, B - 1 - 4},  {4, B - 4},      {4, B + 1 - 4},  {1, B - 1},      {4, B},          {4, B + 1},
 	};
 	cfg->nshapes = 0;
 	for (unsigned i = 0; i < sizeof(sh) / sizeof(sh[0]); i++)
@@ -161,7 +168,7 @@ static int ov_cmp(const void *a, const void *b)
 int main(int argc, char **argv)
 {
 	const char *tier = NULL, *outpath = NULL, *replay = NULL;
-	int jobs = 16, verbose = 0;
+	int jobs = 16, verbose = 0, only = -1;
 	double deadline_s = 0;
 	for (int i = 1; i < argc; i++) {
 		if (!strcmp(argv[i], "--tier") && i + 1 < argc)
@@ -176,6 +183,8 @@ int main(int argc, char **argv)
 			replay = argv[++i];
 		else if (!strcmp(argv[i], "--verbose"))
 			verbose = 1;
+		else if (!strcmp(argv[i], "--only") && i + 1 < argc) /* development aid: run one section */
+			only = atoi(argv[++i]);
 		else {
 			fprintf(stderr, "usage: c10 --tier quick|thorough --out result.json [--jobs N] [--deadline S] | --replay file\n");
 			return 2;
@@ -209,7 +218,7 @@ int main(int argc, char **argv)
 	double deadline = deadline_s > 0 ? t0 + deadline_s : 0;
 	int B = c10_bufsize_w5120();
 
-	struct section *sec = calloc(8, sizeof(*sec));
+	struct section *sec = calloc(12, sizeof(*sec));
 	int nsec = 0;
 #define BASE(s, nm, var)                  \
 	do {                                  \
@@ -245,13 +254,34 @@ int main(int argc, char **argv)
 
 	if (thorough) {
 		s = &sec[nsec++];
-		char nm[96];
-		snprintf(nm, sizeof(nm), "w5120: real %d-byte buffer, boundary frame sizes, <=3 frames, reduced kernel answers", B);
+		BASE(s, "w16 cross-check C: <=2 frames of 4 shapes, merging ON", "w16");
+		s->cfg.max_frames = 2;
+		shapes_w16(&s->cfg, 1);
+		s = &sec[nsec++];
+		BASE(s, "w16 cross-check D: <=2 frames of 4 shapes, merging OFF", "w16");
+		s->cfg.max_frames = 2;
+		s->cfg.memo = 0;
+		s->crosscheck = 1;
+		shapes_w16(&s->cfg, 1);
+
+		s = &sec[nsec++];
+		char nm[160];
+		snprintf(nm, sizeof(nm), "w5120: real %d-byte buffer, 11 boundary frame shapes, <=2 frames, reduced kernel answers", B);
+		BASE(s, nm, "w5120");
+		s->cfg.max_frames = 2;
+		s->cfg.reduced_answers = 1;
+		s->cfg.short_budget = 3;
+		s->cfg.path_short_budget = 3;
+		shapes_big(&s->cfg, B, 0);
+
+		s = &sec[nsec++];
+		snprintf(nm, sizeof(nm), "w5120: real %d-byte buffer, <=3 frames of 4 shapes (small, half, B-14, B), reduced kernel answers", B);
 		BASE(s, nm, "w5120");
 		s->cfg.max_frames = 3;
 		s->cfg.reduced_answers = 1;
-		s->cfg.short_budget = 2;
-		shapes_big(&s->cfg, B);
+		s->cfg.short_budget = 3;
+		s->cfg.path_short_budget = 3;
+		shapes_big(&s->cfg, B, 1);
 
 		s = &sec[nsec++];
 		BASE(s, "w16 transient hard error (ENOBUFS, socket usable afterwards), <=2 frames [observational]", "w16");
@@ -265,6 +295,11 @@ int main(int argc, char **argv)
 	for (int i = 0; i < nsec; i++) {
 		double ts = now_s();
 		explore_fn fn = strcmp(sec[i].variant, "w5120") == 0 ? c10_explore_w5120 : c10_explore_w16;
+		if (only >= 0 && i != only && !(sec[i].crosscheck && i - 1 == only) && !(i + 1 < nsec && sec[i + 1].crosscheck && i + 1 == only)) {
+			sec[i].res.exhaustive = 0;
+			exhaustive = 0;
+			continue;
+		}
 		if (deadline > 0 && now_s() > deadline) {
 			sec[i].res.exhaustive = 0;
 			exhaustive = 0;
@@ -309,9 +344,14 @@ int main(int argc, char **argv)
 				if (r->viol[m].consequence && !strcmp(r->viol[m].key, v->key))
 					cons = &r->viol[m];
 			int dup = 0;
-			for (int m = 0; m < nov; m++)
+			for (int m = 0; m < nov; m++) {
 				if (!strcmp(ov[m].key, v->key))
 					dup = 1;
+				/* an observational finding that merely repeats a reported class is not listed again */
+				size_t kl = strlen(ov[m].key);
+				if (sec[i].observational && !ov[m].observational && !strncmp(ov[m].key, v->key, kl) && v->key[kl] == '+')
+					dup = 1;
+			}
 			if (dup)
 				continue;
 			struct c10_viol *use = cons ? cons : v;
@@ -376,7 +416,7 @@ int main(int argc, char **argv)
 	           "\"writability_callbacks\": \"unbounded (fixpoint; superset of <=3)\", \"kernel_answers_w16\": \"every k in 1..offered, EAGAIN, EPIPE at every writev call\", "
 	           "\"w5120\": \"%s\", \"jobs\": %d},\n",
 	        thorough ? 3 : 2,
-	        thorough ? "real buffer; totals B-1,B,B+1 and two/three-frame sums at the boundary; answers {1, each iovec boundary -1/0/+1, total-1, total, EAGAIN, EPIPE}; at most 2 short writes per operation then {all,EAGAIN,EPIPE}"
+	        thorough ? "real buffer; totals B-1,B,B+1 and two/three-frame sums at the boundary; answers {1, each iovec boundary -1/0/+1, total-1, total, EAGAIN, EPIPE}; at most 3 short writes per path, then {all,EAGAIN,EPIPE}"
 	                 : "not in quick tier",
 	        jobs);
 	fprintf(f, "  \"caps_hit\": [%s],\n", exhaustive ? "" : "\"deadline\"");
